@@ -11,7 +11,17 @@ into module `Gen.Restart`.
                                  extra `i++`, and the k >= m_ncv early return.  Numeric calls (decomp.compute, apply_YQ, compress_H)
                                  are recorded as events, not evaluated.
   computeSkel                 <- HermEigsBase::compute / GenEigsBase::compute statement skeleton: call order and loop header
+  opSites / opParamBinds      <- STORAGE footprint of every vector handed to the user's operator (custom extractor `op_buffers` below):
+                                 every `perform_op(x, y)` call made by a class that is not itself an operator (Arnoldi::init,
+                                 Arnoldi::expand_basis, Arnoldi::factorize_from, Lanczos::factorize_from,
+                                 GenEigsComplexShiftSolver::sort_ritzpair), the two argument expressions as written, and for each the
+                                 ROOT object the pointer comes from (followed through `.data()`, `&M(0, i)`, `.col(i)`, Map views and
+                                 references): automatic / static / thread_local local of the calling function, data member, parameter
+                                 (then every call of that function in the library with the root of the bound argument), global, or
+                                 unknown.  A work vector that becomes `static thread_local` changes the table and breaks
+                                 `c13_op_buffers_owned`.
 """
+import os, re, glob
 from targets import T
 from xlate import XlateError, Fn
 import astdump
@@ -243,6 +253,222 @@ def compute_skel(tu, t):
             f'-- the loop leaves by `break` exactly when this holds (evaluated right after num_converged)\n'
             f'def {t["lean"]}_break (m_nev : Int) (nconv : Int) : Bool := {brk[0][len("break-if "):]}\n')
 
+# ------------------------------------------------------------------------------------------------------------------
+# storage footprint of the buffers handed to the operator
+VIEW_MEMBERS = ('data', 'col', 'row', 'head', 'tail', 'segment', 'block', 'leftCols', 'rightCols', 'topRows', 'bottomRows', 'derived')
+
+def _header_src(cls):
+    ps = glob.glob(os.path.join(astdump.INC, 'Spectra', '**', cls + '.h'), recursive=True)
+    if len(ps) != 1: raise XlateError(f'op_buffers: no unique header {cls}.h for class {cls}')
+    return open(ps[0]).read()
+
+def _txt(src, node):
+    r = node.get('range', {}); b = r.get('begin', {}); e = r.get('end', {})
+    b = b.get('expansionLoc', b); e = e.get('expansionLoc', e)
+    if 'offset' not in b or 'offset' not in e: raise XlateError('op_buffers: no source range for a ' + str(node.get('kind')))
+    return re.sub(r'\s+', ' ', src[b['offset']: e['offset'] + e.get('tokLen', 0)]).strip()
+
+def _lstr(s): return '"' + s.replace('\\', '\\\\').replace('"', '\\"') + '"'
+
+def _classes(tu):
+    """(name, record node) of every class template / class of namespace Spectra"""
+    out = []
+    for o in tu.objs:
+        if o.get('kind') == 'ClassTemplateDecl':
+            for c in o.get('inner', []):
+                if c.get('kind') == 'CXXRecordDecl' and c.get('name') == o.get('name') and any(x.get('kind', '').endswith('Decl') for x in c.get('inner', [])):
+                    out.append((o['name'], c)); break
+        elif o.get('kind') == 'CXXRecordDecl' and o.get('inner'):
+            out.append((o.get('name'), o))
+    return out
+
+def _methods(rec):
+    """(name, method node, body) of every member function with a body (templates: the pattern)"""
+    res = []
+    for c in rec.get('inner', []):
+        cand = [c]
+        if c.get('kind') == 'FunctionTemplateDecl': cand = [x for x in c.get('inner', []) if x.get('kind') in ('CXXMethodDecl', 'CXXConstructorDecl')][:1]
+        for m in cand:
+            if m.get('kind') in ('CXXMethodDecl', 'CXXConstructorDecl', 'CXXDestructorDecl'):
+                b = [x for x in m.get('inner', []) if x.get('kind') == 'CompoundStmt']
+                if b: res.append((m.get('name'), m, b[0]))
+    return res
+
+def _callee(call):
+    """(receiver node or None, member / function name or None) of a call expression"""
+    c = call['inner'][0]
+    while c.get('kind') in ('ImplicitCastExpr', 'ParenExpr'): c = c['inner'][0]
+    k = c.get('kind')
+    if k in ('CXXDependentScopeMemberExpr', 'MemberExpr'):
+        return (c['inner'][0] if c.get('inner') else None), (c.get('member') or c.get('name'))
+    if k == 'UnresolvedLookupExpr' or k == 'DeclRefExpr':
+        return None, c.get('name') or (c.get('referencedDecl') or {}).get('name')
+    return None, None     # UnresolvedMemberExpr etc.: name only available as text
+
+def _walk_calls(n, name, src, acc):
+    if not isinstance(n, dict): return acc
+    if n.get('kind') in ('CallExpr', 'CXXMemberCallExpr') and n.get('inner'):
+        rcv, nm = _callee(n)
+        if nm is None and n['inner'][0].get('kind') == 'UnresolvedMemberExpr':
+            nm = _txt(src, n['inner'][0]).split('->')[-1].split('.')[-1].strip()
+        if nm == name: acc.append(n)
+    for c in n.get('inner', []): _walk_calls(c, name, src, acc)
+    return acc
+
+class _Ctx:
+    """one member function: its source text, parameters, local variable declarations (by clang id)"""
+    def __init__(self, cls, rec, mnode, body, src):
+        self.cls, self.rec, self.src = cls, rec, src
+        self.params = [c for c in mnode.get('inner', []) if c.get('kind') == 'ParmVarDecl']
+        self.locals = {}
+        def rec_(n):
+            if n.get('kind') == 'VarDecl': self.locals[n.get('id')] = n
+            for c in n.get('inner', []): rec_(c)
+        rec_(body)
+        self.fields = set(); self.inherited = set()
+        for c in rec.get('inner', []):
+            if c.get('kind') == 'FieldDecl': self.fields.add(c.get('name'))
+            if c.get('kind') in ('UnresolvedUsingValueDecl', 'UsingDecl'): self.inherited.add((c.get('name') or '').split('::')[-1])
+
+def _storage(vd):
+    if vd.get('tls'): return 'thread_local'
+    sc = vd.get('storageClass')
+    if sc == 'static': return 'static'
+    if sc == 'extern': return 'global'
+    if sc in (None, 'auto', 'register'): return 'automatic'
+    return 'unknown'
+
+def _vartype(vd):
+    t = vd.get('type', {}); q = t.get('desugaredQualType') or t.get('qualType', '')
+    q0 = re.sub(r'^(const|volatile)\s+', '', q.strip())
+    if '&' in q or '*' in q or re.match(r'(Eigen::)?(Map|Ref|Block|VectorBlock)\s*<', q0): return 'view'
+    if re.match(r'(Eigen::)?(Matrix|Array)\s*<', q0): return 'owning'
+    return 'other'
+
+def _root(ctx, n, via):
+    """-> (kind, name, storage, via-list)"""
+    while n.get('kind') in ('ImplicitCastExpr', 'ParenExpr', 'CXXFunctionalCastExpr', 'CStyleCastExpr', 'CXXStaticCastExpr', 'CXXConstCastExpr',
+                            'CXXReinterpretCastExpr', 'ExprWithCleanups', 'MaterializeTemporaryExpr', 'CXXBindTemporaryExpr') and n.get('inner'):
+        n = n['inner'][-1]
+    k = n.get('kind')
+    if k == 'UnaryOperator' and n.get('opcode') in ('&', '*'): return _root(ctx, n['inner'][0], via)
+    if k == 'ArraySubscriptExpr': return _root(ctx, n['inner'][0], via)
+    if k == 'CXXOperatorCallExpr' and len(n.get('inner', [])) >= 2: return _root(ctx, n['inner'][1], via)
+    if k in ('CallExpr', 'CXXMemberCallExpr') and n.get('inner'):
+        c = n['inner'][0]
+        while c.get('kind') in ('ImplicitCastExpr', 'ParenExpr'): c = c['inner'][0]
+        if c.get('kind') in ('CXXDependentScopeMemberExpr', 'MemberExpr') and (c.get('member') or c.get('name')) in VIEW_MEMBERS and c.get('inner'):
+            return _root(ctx, c['inner'][0], via)            # x.data(), M.col(i), v.head(k): same object
+        if c.get('kind') in ('MemberExpr', 'DeclRefExpr', 'UnresolvedMemberExpr') and not str(c.get('type', {}).get('qualType', '')).startswith('<bound member'):
+            return _root(ctx, c, via)                        # M(r, c): element of the object M
+        return ('unknown', _txt(ctx.src, n), 'unknown', via)
+    if k == 'CXXThisExpr': return ('unknown', 'this', 'unknown', via)
+    if k in ('MemberExpr', 'CXXDependentScopeMemberExpr'):
+        b = n['inner'][0] if n.get('inner') else None
+        nm = n.get('name') or n.get('member')
+        if b is None or b.get('kind') == 'CXXThisExpr': return ('member', nm, 'member', via)
+        return ('unknown', _txt(ctx.src, n), 'unknown', via)
+    if k == 'UnresolvedMemberExpr':
+        nm = _txt(ctx.src, n).replace('this->', '').strip()
+        if nm in ctx.fields or nm in ctx.inherited: return ('member', nm, 'member', via)
+        return ('unknown', nm, 'unknown', via)
+    if k == 'DeclRefExpr':
+        rd = n.get('referencedDecl') or {}
+        nm = rd.get('name', '?')
+        if rd.get('kind') == 'ParmVarDecl':
+            p = [x for x in ctx.params if x.get('id') == rd.get('id')]
+            if not p: return ('unknown', nm, 'unknown', via)
+            return ('param', nm, 'caller', via)
+        if rd.get('kind') == 'VarDecl':
+            vd = ctx.locals.get(rd.get('id'))
+            if vd is None: return ('global', nm, 'global', via)
+            st = _storage(vd); ty = _vartype(vd)
+            if st != 'automatic' or ty == 'owning': return ('local', nm, st, via)     # a non-automatic variable ends the chain (never owned)
+            if ty == 'view':
+                init = [c for c in vd.get('inner', []) if isinstance(c, dict) and c.get('kind') not in ('FullComment',)]
+                if not init: return ('unknown', nm, 'unknown', via)
+                e = init[-1]
+                while e.get('kind') in ('ExprWithCleanups', 'ImplicitCastExpr', 'MaterializeTemporaryExpr') and e.get('inner'): e = e['inner'][0]
+                if e.get('kind') in ('ParenListExpr', 'InitListExpr', 'CXXConstructExpr', 'CXXUnresolvedConstructExpr', 'CXXTemporaryObjectExpr') and e.get('inner'):
+                    e = e['inner'][0]                    # Map<T>(pointer, sizes...): the pointer
+                return _root(ctx, e, via + [nm])
+            return ('unknown', nm, 'unknown', via)
+        return ('unknown', nm, 'unknown', via)
+    return ('unknown', _txt(ctx.src, n), 'unknown', via)
+
+def _root_lean(ctx, n):
+    kind, name, storage, via = _root(ctx, n, [])
+    return 'BufRoot.mk ' + ' '.join(_lstr(x) for x in (_txt(ctx.src, n), kind, name, storage, ','.join(via)))
+
+def op_buffers(tu, t):
+    classes = _classes(tu)
+    operator_classes = set(nm for nm, rec in classes if any(m[0] == 'perform_op' for m in _methods(rec)))
+    sites = []; need = []      # need: (cls, fn, param index, param name)
+    srcs = {}
+    def src_of(cls):
+        if cls not in srcs: srcs[cls] = _header_src(cls)
+        return srcs[cls]
+    by_name = {}
+    for nm, rec in classes: by_name.setdefault(nm, rec)
+    for nm, rec in classes:
+        if nm in operator_classes or by_name[nm] is not rec: continue
+        for fn, mnode, body in _methods(rec):
+            # calls through a dependent / resolved member expression carry the name in the AST; a call written through an
+            # UnresolvedMemberExpr (`using Base::perform_op`-style) has it only in the source text, hence the header is read for every class
+            try: src = src_of(nm)
+            except XlateError:
+                if 'perform_op' in _calls_in(body, []): raise
+                continue
+            calls = _walk_calls(body, 'perform_op', src, [])
+            if not calls: continue
+            ctx = _Ctx(nm, rec, mnode, body, src)
+            for k, c in enumerate(calls):
+                args = c['inner'][1:]
+                if len(args) != 2: raise XlateError(f'{nm}::{fn}: perform_op with {len(args)} arguments')
+                rs = [_root(ctx, a, []) for a in args]
+                sites.append((nm, fn, k, _root_lean(ctx, args[0]), _root_lean(ctx, args[1])))
+                for r in rs:
+                    if r[0] == 'param':
+                        idx = [i for i, p in enumerate(ctx.params) if p.get('name') == r[1]][0]
+                        if (nm, fn, idx, r[1], len(ctx.params)) not in need: need.append((nm, fn, idx, r[1], len(ctx.params)))
+    if not sites: raise XlateError('op_buffers: no perform_op call found outside the operator classes')
+    site_classes = set(s[0] for s in sites)
+    binds = []
+    for (cls, fn, idx, pname, npar) in need:
+        for nm, rec in classes:
+            if by_name[nm] is not rec: continue
+            try: src = src_of(nm)
+            except XlateError: continue
+            for cfn, mnode, body in _methods(rec):
+                for c in _walk_calls(body, fn, src, []):
+                    args = c['inner'][1:]
+                    if len(args) != npar: continue
+                    rcv, _ = _callee(c)
+                    rtxt = '' if rcv is None else _txt(src, rcv)
+                    if n_implicit(rcv): rtxt = 'this'
+                    if rtxt in ('', 'this'):
+                        if nm not in site_classes: continue          # an unrelated class calling its own function of the same name
+                    elif rtxt not in ('m_fac', 'this->m_fac'): continue
+                    ctx = _Ctx(nm, rec, mnode, body, src)
+                    binds.append((cls + '::' + fn, pname, nm, cfn, _root_lean(ctx, args[idx])))
+    # NOTE: gen_module prepends its own `/-- translated from ... -/` doc comment, so this text must not START with a doc comment
+    s = ('/- root object of one pointer handed to `perform_op`: the argument as written, what it resolves to (kind: "local" | "member" | "param" |\n'
+         '    "global" | "unknown"; name of the root variable), its storage ("automatic" | "static" | "thread_local" | "member" | "caller" | "global" |\n'
+         '    "unknown"), and the view variables (Map / reference locals) the resolution went through -/\n'
+         'structure BufRoot where\n  expr : String\n  kind : String\n  name : String\n  storage : String\n  via : String\n  deriving Repr, DecidableEq\n\n'
+         '/-- one `perform_op(x, y)` call site: class, member function, ordinal of the call inside the function (source order) -/\n'
+         'structure OpSite where\n  cls : String\n  fn : String\n  ord : Nat\n  x : BufRoot\n  y : BufRoot\n  deriving Repr, DecidableEq\n\n'
+         '/-- a call (in class `cls`, function `caller`) of a function that hands its parameter `param` to the operator, with the root of the bound argument -/\n'
+         'structure ParamBind where\n  callee : String\n  param : String\n  cls : String\n  caller : String\n  root : BufRoot\n  deriving Repr, DecidableEq\n\n'
+         '-- every perform_op call made by a class that does not itself define perform_op (i.e. every call that reaches the USER\'s operator from solver code)\n'
+         'def opSites : List OpSite := [\n' + ',\n'.join(f'  ⟨{_lstr(a)}, {_lstr(b)}, {k}, {x}, {y}⟩' for a, b, k, x, y in sites) + ']\n\n'
+         '-- every call in the library of a function above whose PARAMETER reaches the operator\n'
+         'def opParamBinds : List ParamBind := [\n' + ',\n'.join(f'  ⟨{_lstr(a)}, {_lstr(b)}, {_lstr(c)}, {_lstr(d)}, {r}⟩' for a, b, c, d, r in binds) + ']\n')
+    return s
+
+def n_implicit(rcv):
+    return rcv is not None and rcv.get('kind') == 'CXXThisExpr'
+
 RESTART = [
     T('is_complex', 'GenEigsBase::is_complex', G, mode='value', params={'v': 'cplx'}, ret_type='Bool'),
     T('is_conj', 'GenEigsBase::is_conj', G, mode='value', params={'v1': 'cplx', 'v2': 'cplx'}, ret_type='Bool'),
@@ -258,6 +484,7 @@ RESTART = [
     dict(lean='genShiftSkel', header=G, custom=restart_skel('gen'), path='GenEigsBase::restart'),
     dict(lean='hermComputeSkel', header=H, custom=compute_skel, path='HermEigsBase::compute'),
     dict(lean='genComputeSkel', header=G, custom=compute_skel, path='GenEigsBase::compute'),
+    dict(lean='opSites', header='LinAlg/Arnoldi.h', custom=op_buffers, path='*::perform_op call sites'),
 ]
 
 MODULES = [('Restart', RESTART, '')]
